@@ -126,6 +126,19 @@ func genC09(tier, out string, sum *Summary) {
 			check(e, d)
 		}
 	}
+	// what is not needed is not computed: an argument after the one that decides (the first non-null argument of
+	// not_null, an operand after a short-circuit, an argument after one of the wrong type in merge and zip) costs
+	// nothing, whatever width it asks for (limits: 50 ms, 1 MiB)
+	for _, e := range []string{"not_null(name, pad_left('', `33554432`))", "not_null(name, pad_right('', `33554432`), pad_left('', `33554432`))", "name || pad_left('', `33554432`)", "missing && pad_left('', `33554432`)",
+		"merge(name, {a: pad_left('', `16777216`)})", "zip(name, [pad_left('', `16777216`)])", "not_null(`1`, join('', map(&pad_left('', `1048576`), xs)))", "[name][?@] || pad_left('', `33554432`)", "let $v = name in not_null($v, pad_left('', `33554432`))"} {
+		id++
+		d := map[string]any{"name": "x", "xs": []any{json.Number("1"), json.Number("2"), json.Number("3"), json.Number("4"), json.Number("5"), json.Number("6"), json.Number("7"), json.Number("8")}}
+		o, el, alloc := measured(sum, e, d, limit, out)
+		sum.count("unneeded-argument/" + o.Kind)
+		if el > 50*time.Millisecond || alloc > 1<<20 {
+			sum.direct("magnitude", e, d, fmt.Sprintf("took %v and allocated %d bytes although the costly argument is not needed for the outcome (%s)", el, alloc, describe(o)))
+		}
+	}
 	// the exponent of a number is a magnitude like any other: a handful of bytes of number text, whatever they
 	// say, cost a handful of bytes of work (limits: 50 ms, 1 MiB)
 	for _, t := range []string{"1e999999", "-1e999999", "2.5e-999999", "1e1000000", "1e-1000000", "1e99999999", "1e-99999999", "1e2147483647", "1e-2147483648", "1e9223372036854775807", "1e18446744073709551616", "0e999999999", "1E+999999", "123e-999999"} {
